@@ -56,6 +56,7 @@ type c02Variant struct {
 	ClientAuth bool
 	SkipHV     bool
 	Resumed    bool
+	Stores     bool // session stores on both sides but no earlier session (full handshake that saves one)
 	MTU        int
 	CID        bool
 }
@@ -72,6 +73,8 @@ func c02Variants() []c02Variant {
 		{Name: "psk-resumed", PSK: true, Hint: true, Resumed: true},
 		{Name: "cert-resumed", Resumed: true},
 		{Name: "psk-cid-mtu40", PSK: true, Hint: true, MTU: 40, CID: true},
+		{Name: "cert-stores-mtu200", Stores: true, MTU: 200},
+		{Name: "psk-stores", PSK: true, Hint: true, Stores: true},
 	}
 }
 
@@ -184,6 +187,9 @@ func runC02(t *testing.T, v c02Variant, mask []string, interval time.Duration, s
 	t.Helper()
 	res := c02Case{Kind: "c02", Variant: v.Name, Mask: mask, Interval: interval.Milliseconds()}
 	var cs, ss *c02Store
+	if v.Stores {
+		cs, ss = newC02Store(), newC02Store()
+	}
 	if v.Resumed {
 		cs, ss = newC02Store(), newC02Store()
 		// first connection populates both stores
